@@ -834,6 +834,35 @@ Ref3(S, g) == Len(S.cells) > 0 /\ BallAt(K(S), NN(S), VIds(S), g) /\ PositiveOri
 \* perturbed vertex)
 Ref3Sure(S, g) == Ref3(S, g) /\ \A c \in CRecs(S) : LibSign(S, c) = 1
 
+\* ---- public maintenance calls of Tds (mechanism conjuncts: not a listed property) ------------------------------
+\* pre = the (possibly corrupted) raw state, post = after the call on a copy of it
+Maint(a, r, post) ==
+  LET pre == a.pre IN
+  /\ Chk("C19.panic in a Tds maintenance call", r.kind # "Panic")
+  /\ (a.op = "remove_duplicate_cells" /\ Level1Q(pre) /\ L2a(pre) /\ L2b(pre) =>
+        /\ Chk("MODEL.remove_duplicate_cells leaves a duplicate or removes another cell",
+               r.kind = "Ok" /\ L2c(post) /\ K(post) = K(pre) /\ ObsVerts(post) = ObsVerts(pre))
+        /\ Chk("MODEL.remove_duplicate_cells reports another number than it removed",
+               r.n = Len(pre.cells) - Cardinality(K(pre)) /\ Len(post.cells) = Cardinality(K(pre))))
+  /\ (a.op = "assign_incident_cells" /\ Level1Q(pre) /\ L2a(pre) /\ L2b(pre) =>
+        Chk("MODEL.assign_incident_cells leaves a vertex without a valid incident cell or changes a cell",
+            r.kind = "Ok" /\ L2f(post) /\ ObsCells(post) = ObsCells(pre) /\ ObsVerts(post) = ObsVerts(pre)
+            /\ \A v \in VRecs(post) : (v.inc = 0) = (\A c \in CRecs(post) : v.id \notin CellSet(c))))
+  /\ (a.op = "is_connected" /\ Level1Q(pre) /\ Level2Q(pre) /\ Len(pre.cells) > 0 =>
+        Chk("MODEL.is_connected disagrees with facet connectivity", (r.n = 1) = DualConnected(K(pre))))
+  /\ (a.op = "star_of_each_vertex" /\ Level1Q(pre) /\ Level2Q(pre) =>
+        \* find_cells_containing_vertex_by_key walks neighbour pointers from the incident cell: it returns the
+        \* FACET-CONNECTED part of the star that contains the incident cell (the whole star on a manifold complex)
+        Chk("MODEL.star walk returns a cell outside the star or misses part of its facet-connected component",
+            \A i \in DOMAIN r.stars :
+              LET v == r.stars[i].v
+                  got == Range(r.stars[i].cells)
+                  star == {c.id : c \in {x \in CRecs(pre) : v \in CellSet(x)}}
+                  inc == (CHOOSE x \in VRecs(pre) : x.id = v).inc
+              IN  /\ got \subseteq star
+                  /\ (inc # 0 => inc \in got)
+                  /\ \A c \in CRecs(pre) : c.id \in got => \A k \in DOMAIN c.nb : c.nb[k] \in star /\ c.vs[k] # v => c.nb[k] \in got))
+
 Faulted(S, a, r) ==
   LET g  == S.cfg.g
       r1 == Ref1(S)
